@@ -25,15 +25,15 @@ LEVEL_TEXT = ("The property as stated is false: C21_refuted proves, for every bu
 LEVEL_NOTE = ("KNOWN FINDING both_sides_exceed_window (open): both sides send a whole author's logs and Done inside one select! arm without "
               "reading; over a transport whose window is smaller than what both sides have to send they block each other for ever. "
               "Partial: the real transport (QUIC streams + codec, p2panda-net) is not modelled - the model and the harness use "
-              "futures::mpsc::channel(c) as the bounded transport; a predicted deadlock is observed as a timeout (deadline 1.5-2.5 s, up to 6 "
+              "futures::mpsc::channel(c) as the bounded transport; a predicted deadlock is observed as a timeout (no progress for 1.5-2 s, up to 6 "
               "attempts), a predicted termination as completion of every attempt. Trusted: Coq kernel + vm_compute; hand-written model; "
               "futures-channel parking semantics as modelled (checked by the boundary cases on every run); harness/python glue.")
 ASSUMPTIONS = ["static stores during the session; both sides honest; one sender per channel direction (futures::mpsc::channel(c), window c + parked slot)",
                "a timeout within the deadline is taken as a deadlock; completion of all attempts as termination"]
 TRUSTED = ["modelled not verified: futures-channel Sender::poll_ready/poll_flush parking, tokio select! arm choice, QUIC transport replaced by mpsc"]
 RULE = ("quick: for c = 0..8 the boundary volumes on both sides (n-1/n/n+3 operations around n = c), mixed with overlapping prefixes, two-author sides and "
-        "one-sided volumes; predicted-deadlock cases limited to 8 (each costs one deadline); thorough: full grid c = 0..8 x volumes 0..c+4 per side "
-        "+ 200 random multi-author cases. non-trivial = at least one side has to send c or more sync-phase messages")
+        "one-sided volumes; predicted-deadlock cases limited to 8 (each costs one deadline); thorough: full grid c = 0..8 x volumes 0..c+3 per side "
+        "+ 150 random multi-author cases. non-trivial = at least one side has to send c or more sync-phase messages")
 
 
 def rows(n, lo=0, size=500):
@@ -106,10 +106,10 @@ def gen(tier, rng):
                "repb": [[1, 0, rows(9)]], "ms": 1500, "tries": 6}
         return
     for c in range(0, 9):
-        for na in range(0, c + 5):
-            for nb in range(0, c + 5):
-                yield mk(c, na, nb, ms=2500)
-    for _ in range(200):
+        for na in range(0, c + 4):
+            for nb in range(0, c + 4):
+                yield mk(c, na, nb, ms=2000)
+    for _ in range(150):
         c = rng.randint(1, 8)
         authors = sorted(rng.sample(range(0, 5), rng.randint(2, 4)))
         logs, repa, repb = [], [], []
@@ -129,7 +129,7 @@ def gen(tier, rng):
                     k = rng.randint(0, n)
                     if k and rng.random() < 0.4:
                         repa.append([a, l, rows(k)])
-        yield {"cap": c, "logs": logs, "repa": repa, "repb": repb, "ms": 2500, "tries": 6}
+        yield {"cap": c, "logs": logs, "repa": repa, "repb": repb, "ms": 2000, "tries": 6}
 
 
 def harness_line(case):
